@@ -20,6 +20,7 @@ Record of one call (dict, JSON-able), as returned in result['calls'][client]:
     skipped  True when the call was not executed (it follows a raise_in_block / a begin_block that timed out),
     pending  True when the client was killed / the step budget overflowed inside the call.
 """
+import atexit
 import itertools
 import json
 import os
@@ -28,6 +29,7 @@ import select
 import shutil
 import signal
 import sys
+import tempfile
 import time as _time
 import traceback
 
@@ -41,6 +43,23 @@ MISS = '<MISS>'                      # JSON stand-in for "the caller's default c
 _SENT = core.Constant('VERIF_CONC_DEFAULT')
 KINDS = ('cache', 'fanout', 'deque', 'index')
 BLOCK_OPS = ('begin_block', 'end_block', 'raise_in_block')
+
+
+def scratch(ctx, name=''):
+    """Scratch directory for cache directories.  SQLite syncs on every checkpoint/close; on a disk-backed /tmp that is
+    ~100 ms per cache, on tmpfs ~3 ms.  None of C05/C06/C07/C14 is about durability across power loss (only process
+    death), so the directories live on /dev/shm when it is usable (VERIF_NO_SHM=1 forces ctx.scratch); removed at exit."""
+    base = getattr(ctx, '_fast_tmp', None)
+    if base is None:
+        base = ctx.tmp
+        if os.path.isdir('/dev/shm') and os.access('/dev/shm', os.W_OK) and not os.environ.get('VERIF_NO_SHM'):
+            try:
+                base = tempfile.mkdtemp(prefix='verif-%s-%d-' % (ctx.prop, os.getpid()), dir='/dev/shm')
+                atexit.register(shutil.rmtree, base, True)
+            except OSError:
+                base = ctx.tmp
+        ctx._fast_tmp = base
+    return tempfile.mkdtemp(prefix=name + '-', dir=base)
 
 
 class BlockAbort(Exception):
@@ -525,7 +544,7 @@ def run_program(ctx, programs, schedule, mode='own', settings=None, kill_at=None
     """n client threads under the deterministic scheduler (see the module docstring for the result)."""
     assert mode in ('own', 'shared')
     n = len(programs)
-    d = directory or ctx.scratch('conc')
+    d = directory or scratch(ctx, 'conc')
     clock = instr.Clock(now)
     out = {'dir': d, 'mode': mode, 'kind': kind, 'n': n}
     with instr.Installed(clock):
@@ -847,7 +866,7 @@ def run_processes(ctx, programs, schedule, settings=None, kill_at=None, setup=No
     before-hook reports the event on a pipe and blocks until the parent grants the step.  kill_at={cid: n}: the
     child is SIGKILLed while parked at its n-th event (before it executes).  Result as run_program (no raw_log)."""
     n = len(programs)
-    d = directory or ctx.scratch('proc')
+    d = directory or scratch(ctx, 'proc')
     clock = instr.Clock(now)
     kill_at = kill_at or {}
     out = {'dir': d, 'mode': 'process', 'kind': kind, 'n': n}
